@@ -34,31 +34,48 @@ func TestMain(m *testing.M) { pbt.Main(m) }
 // Op is one operation of one goroutine.
 //
 // Operations on pool quote Q (a *bt.FeeQuote):
-//   fee(T) add(T,V) exp upd(V) expd mar unm(V)
+//
+//	fee(T) add(T) exp upd(V: 0 past, 1 future) expd mar unm(V: document shape)
+//
 // Operations on the shared *bt.FeeQuotes:
-//   qfee(M,T) quote(M) addm(M,Q) addd(M) updm(M,T,V) qmar
+//
+//	qfee(M,T) quote(M,T) addm(M,Q) addd(M) updm(M,T) qmar
+//
+// Every write stores a value that is unique to the writing operation (it
+// encodes goroutine and operation index), so a value that is read can be
+// traced back to the write that stored it.
 type Op struct {
 	K string `json:"k"`
 	Q int    `json:"q,omitempty"` // pool quote index
 	M int    `json:"m,omitempty"` // miner index (name "m<M>")
 	T int    `json:"t,omitempty"` // fee type: 0 standard, 1 data
-	V int    `json:"v,omitempty"` // pool value index (fee value / time / document)
+	V int    `json:"v,omitempty"` // upd: 0 far past / 1 far future; unm: document shape
 	Y bool   `json:"y,omitempty"` // runtime.Gosched() after the operation
 }
 
 // Prog is a generated concurrent program.
 type Prog struct {
-	Kind    string `json:"kind"`   // "quote": every op targets pool quote 0; "quotes": FeeQuotes + pool quotes
-	Procs   int    `json:"procs"`  // GOMAXPROCS while the program runs
+	Kind    string `json:"kind"`  // "quote": every op targets pool quote 0; "quotes": FeeQuotes + pool quotes
+	Procs   int    `json:"procs"` // GOMAXPROCS while the program runs
 	NQuotes int    `json:"nquotes"`
 	Rounds  int    `json:"rounds"` // the program is run this many times on fresh objects
 	G       [][]Op `json:"g"`
 }
 
 const (
-	nFeeVals = 24
-	nTimes   = 8
-	nMiners  = 4
+	maxOps  = 512 // per goroutine (generated: <= 300)
+	maxG    = 32
+	nMiners = 4
+)
+
+// document shapes for unm
+const (
+	docBoth = iota
+	docStdOnly
+	docDataOnly
+	docUnknownType // {"bogus": ...}: UnmarshalJSON must refuse it
+	docMalformed
+	nDocShapes
 )
 
 var feeTypes = []bt.FeeType{bt.FeeTypeStandard, bt.FeeTypeData}
@@ -67,153 +84,182 @@ type feeVal [4]int // mining sat, mining bytes, relay sat, relay bytes
 
 var defaultVal = feeVal{5, 100, 5, 100}
 
-// value v of the numbered pool: four distinct numbers derived from v, so a
+func wid(g, i int) int { return g*maxOps + i }
+
+// the value write (g,i) stores for fee type t: four consecutive numbers, so a
 // value assembled from two different writes is recognisable
-func poolVal(v int) feeVal { return feeVal{1000 + 4*v, 1001 + 4*v, 1002 + 4*v, 1003 + 4*v} }
+func feeNums(id, t int) feeVal {
+	b := 1000 + 8*id + 4*t
+	return feeVal{b, b + 1, b + 2, b + 3}
+}
+
+func decodeFee(v feeVal) (id, t int, ok bool) {
+	b := v[0] - 1000
+	if b < 0 || b%4 != 0 || v[1] != v[0]+1 || v[2] != v[0]+2 || v[3] != v[0]+3 {
+		return 0, 0, false
+	}
+	return b / 8, (b % 8) / 4, true
+}
 
 func valOf(f *bt.Fee) feeVal {
 	return feeVal{f.MiningFee.Satoshis, f.MiningFee.Bytes, f.RelayFee.Satoshis, f.RelayFee.Bytes}
 }
 
-func feeObj(v, t int) *bt.Fee {
-	p := poolVal(v)
+func feeObj(id, t int) *bt.Fee {
+	p := feeNums(id, t)
 	return &bt.Fee{FeeType: feeTypes[t], MiningFee: bt.FeeUnit{Satoshis: p[0], Bytes: p[1]}, RelayFee: bt.FeeUnit{Satoshis: p[2], Bytes: p[3]}}
 }
 
-// pool time v: even = far past, odd = far future
-func poolTime(v int) time.Time {
-	if v%2 == 0 {
-		return time.Date(2001+v, 1, 2, 3, 4, 5, 0, time.UTC)
-	}
-	return time.Date(2201+v, 1, 2, 3, 4, 5, 0, time.UTC)
-}
-
-// doc is a JSON document handed to UnmarshalJSON. vals[t] < 0: type absent.
-type doc struct {
-	text  string
-	vals  [2]int
-	valid bool
-}
-
-func feeJSON(v int) string {
-	p := poolVal(v)
+func feeJSON(id, t int) string {
+	p := feeNums(id, t)
 	return fmt.Sprintf(`{"miningFee":{"satoshis":%d,"bytes":%d},"relayFee":{"satoshis":%d,"bytes":%d}}`, p[0], p[1], p[2], p[3])
 }
 
-var docs = func() []doc {
-	var d []doc
-	for i := 0; i < 6; i++ { // both types
-		a, b := 2*i, 2*i+1
-		d = append(d, doc{fmt.Sprintf(`{"standard":%s,"data":%s}`, feeJSON(a), feeJSON(b)), [2]int{a, b}, true})
+var (
+	pastBase   = time.Date(2001, 1, 1, 0, 0, 0, 0, time.UTC)
+	futureBase = time.Date(2201, 1, 1, 0, 0, 0, 0, time.UTC)
+)
+
+func timeOf(id int, future bool) time.Time {
+	if future {
+		return futureBase.Add(time.Duration(id) * time.Second)
 	}
-	d = append(d, doc{fmt.Sprintf(`{"standard":%s}`, feeJSON(12)), [2]int{12, -1}, true})
-	d = append(d, doc{fmt.Sprintf(`{"data":%s}`, feeJSON(13)), [2]int{-1, 13}, true})
-	d = append(d, doc{fmt.Sprintf(`{"bogus":%s}`, feeJSON(14)), [2]int{-1, -1}, false}) // unknown fee type: must be refused
-	d = append(d, doc{`{"standard":`, [2]int{-1, -1}, false})                             // not JSON
-	return d
-}()
+	return pastBase.Add(time.Duration(id) * time.Second)
+}
+
+func decodeTime(x time.Time) (id int, future, ok bool) {
+	for _, f := range []bool{false, true} {
+		d := x.Sub(timeOf(0, f))
+		if d >= 0 && d < time.Duration(maxG*maxOps)*time.Second && d%time.Second == 0 {
+			return int(d / time.Second), f, true
+		}
+	}
+	return 0, false, false
+}
+
+func docHas(shape, t int) bool {
+	return shape == docBoth || (shape == docStdOnly && t == 0) || (shape == docDataOnly && t == 1)
+}
+
+func docValid(shape int) bool { return shape == docBoth || shape == docStdOnly || shape == docDataOnly }
+
+func docText(shape, id int) string {
+	switch shape {
+	case docBoth:
+		return fmt.Sprintf(`{"standard":%s,"data":%s}`, feeJSON(id, 0), feeJSON(id, 1))
+	case docStdOnly:
+		return fmt.Sprintf(`{"standard":%s}`, feeJSON(id, 0))
+	case docDataOnly:
+		return fmt.Sprintf(`{"data":%s}`, feeJSON(id, 1))
+	case docUnknownType:
+		return fmt.Sprintf(`{"bogus":%s}`, feeJSON(id, 0))
+	}
+	return `{"standard":`
+}
 
 func miner(m int) string { return fmt.Sprintf("m%d", m) }
 
 // ---------------------------------------------------------------------------
-// what a read may return (computed from the program text only)
-
-type allowed struct {
-	fee    [2]map[feeVal]bool
-	absent [2]bool // ErrFeeTypeNotFound possible
-}
-
-func newAllowed() *allowed {
-	a := &allowed{}
-	for t := range a.fee {
-		a.fee[t] = map[feeVal]bool{defaultVal: true}
-	}
-	return a
-}
-
-func (a *allowed) merge(b *allowed) {
-	for t := range a.fee {
-		for v := range b.fee[t] {
-			a.fee[t][v] = true
-		}
-		a.absent[t] = a.absent[t] || b.absent[t]
-	}
-}
+// static facts about a program (computed from its text only)
 
 type model struct {
-	quote   []*allowed        // per pool quote
-	dflt    [nMiners]*allowed // quotes created by NewFeeQuotes / AddMinerWithDefault for miner m
-	hasDflt [nMiners]bool
-	mapsTo  [nMiners]map[int]bool // pool quotes ever registered under miner m
-	times   []map[int]bool        // per pool quote: pool times written
+	p       Prog
+	hasDflt [nMiners]bool         // NewFeeQuotes / AddMinerWithDefault creates a quote for miner m
+	mapsTo  [nMiners]map[int]bool // pool quotes some AddMiner registers under miner m
+	absent  [][2]bool             // per pool quote, fee type: some Unmarshal may remove the type
 	badDoc  []bool                // per pool quote: an invalid document is unmarshalled into it
 }
 
 func buildModel(p Prog) *model {
-	m := &model{}
-	for q := 0; q < p.NQuotes; q++ {
-		m.quote = append(m.quote, newAllowed())
-		m.times = append(m.times, map[int]bool{})
-		m.badDoc = append(m.badDoc, false)
-	}
-	for i := range m.dflt {
-		m.dflt[i] = newAllowed()
+	m := &model{p: p, absent: make([][2]bool, p.NQuotes), badDoc: make([]bool, p.NQuotes)}
+	for i := range m.mapsTo {
 		m.mapsTo[i] = map[int]bool{}
 	}
 	m.hasDflt[0] = true // NewFeeQuotes("m0")
-	each := func(f func(o Op)) {
-		for _, g := range p.G {
-			for _, o := range g {
-				f(o)
+	for _, g := range p.G {
+		for _, o := range g {
+			switch o.K {
+			case "addm":
+				m.mapsTo[o.M][o.Q] = true
+			case "addd":
+				m.hasDflt[o.M] = true
+			case "unm":
+				for t := 0; t < 2; t++ {
+					if !docHas(o.V, t) {
+						m.absent[o.Q][t] = true // removed by a partial document (or, conservatively, by an invalid one)
+					}
+				}
+				if !docValid(o.V) {
+					m.badDoc[o.Q] = true
+				}
 			}
 		}
 	}
-	each(func(o Op) {
-		switch o.K {
-		case "addm":
-			m.mapsTo[o.M][o.Q] = true
-		case "addd":
-			m.hasDflt[o.M] = true
-		}
-	})
-	each(func(o Op) {
-		switch o.K {
-		case "add":
-			m.quote[o.Q].fee[o.T][poolVal(o.V)] = true
-		case "unm":
-			d := docs[o.V]
-			for t := 0; t < 2; t++ {
-				if !d.valid || d.vals[t] < 0 {
-					m.quote[o.Q].absent[t] = true
-				} else {
-					m.quote[o.Q].fee[t][poolVal(d.vals[t])] = true
-				}
-			}
-			if !d.valid {
-				m.badDoc[o.Q] = true
-			}
-		case "upd":
-			m.times[o.Q][o.V] = true
-		case "updm":
-			m.dflt[o.M].fee[o.T][poolVal(o.V)] = true
-			for q := range m.mapsTo[o.M] {
-				m.quote[q].fee[o.T][poolVal(o.V)] = true
-			}
-		}
-	})
 	return m
 }
 
-// viaMiner is what a read through miner m may see.
-func (m *model) viaMiner(mi int) *allowed {
-	a := newAllowed()
-	if m.hasDflt[mi] {
-		a.merge(m.dflt[mi])
+func (m *model) op(id int) (Op, bool) {
+	g, i := id/maxOps, id%maxOps
+	if g < 0 || g >= len(m.p.G) || i >= len(m.p.G[g]) {
+		return Op{}, false
+	}
+	return m.p.G[g][i], true
+}
+
+// storesAt reports whether write id can have stored its type-t value in pool quote q.
+func (m *model) storesAt(id, t, q int) bool {
+	o, ok := m.op(id)
+	if !ok {
+		return false
+	}
+	switch o.K {
+	case "add":
+		return o.Q == q && o.T == t
+	case "unm":
+		return o.Q == q && docHas(o.V, t)
+	case "updm":
+		return o.T == t && m.mapsTo[o.M][q]
+	}
+	return false
+}
+
+// storesVia reports whether write id can have stored its type-t value in a
+// quote reachable through miner mi.
+func (m *model) storesVia(id, t, mi int) bool {
+	o, ok := m.op(id)
+	if !ok {
+		return false
+	}
+	if o.K == "updm" && o.T == t && o.M == mi {
+		return true
 	}
 	for q := range m.mapsTo[mi] {
-		a.merge(m.quote[q])
+		if m.storesAt(id, t, q) {
+			return true
+		}
 	}
-	return a
+	return false
+}
+
+// directWrite: operation o certainly writes location (q,t) (value or removal).
+func directWrite(o Op, q, t int) bool {
+	switch o.K {
+	case "add":
+		return o.Q == q && o.T == t
+	case "unm":
+		return o.Q == q && docValid(o.V)
+	}
+	return false
+}
+
+// laterDirectWrite: goroutine g writes (q,t) directly after its operation i.
+func (m *model) laterDirectWrite(g, i, q, t int) bool {
+	for k := i + 1; k < len(m.p.G[g]); k++ {
+		if directWrite(m.p.G[g][k], q, t) {
+			return true
+		}
+	}
+	return false
 }
 
 // ---------------------------------------------------------------------------
@@ -225,12 +271,48 @@ type world struct {
 	fqs     *bt.FeeQuotes
 	q       []*bt.FeeQuote
 	initExp []time.Time
-	fees    [nFeeVals][2]*bt.Fee
 }
 
-func checkFee(a *allowed, t int, f *bt.Fee, err error, what string) error {
+type loc struct{ q, t int }
+
+// gstate is what one goroutine has observed so far.
+type gstate struct {
+	g          int
+	seen       map[loc]map[int]int // location -> writer goroutine -> highest operation index observed
+	nonDefault map[loc]bool        // a written value (or a removal) was observed: the default cannot come back
+	seenExp    []map[int]int
+	nonInitExp []bool
+}
+
+func newGState(g, nq int) *gstate {
+	s := &gstate{g: g, seen: map[loc]map[int]int{}, nonDefault: map[loc]bool{}, seenExp: make([]map[int]int, nq), nonInitExp: make([]bool, nq)}
+	for i := range s.seenExp {
+		s.seenExp[i] = map[int]int{}
+	}
+	return s
+}
+
+func (s *gstate) observe(l loc, id int) error {
+	g, i := id/maxOps, id%maxOps
+	if s.seen[l] == nil {
+		s.seen[l] = map[int]int{}
+	}
+	if prev, ok := s.seen[l][g]; ok && i < prev {
+		return fmt.Errorf("stale value: the value of goroutine %d's operation %d reappeared after its later operation %d had been observed there", g, i, prev)
+	}
+	s.seen[l][g] = i
+	s.nonDefault[l] = true
+	return nil
+}
+
+// readDirect judges a fee read from pool quote q (nil gs: after the join).
+func (w *world) readDirect(gs *gstate, q, t int, f *bt.Fee, err error, what string) error {
+	l := loc{q, t}
 	if err != nil {
-		if errors.Is(err, bt.ErrFeeTypeNotFound) && a.absent[t] {
+		if errors.Is(err, bt.ErrFeeTypeNotFound) && w.m.absent[q][t] {
+			if gs != nil {
+				gs.nonDefault[l] = true
+			}
 			return nil
 		}
 		return fmt.Errorf("%s returned error %v, which no write in the program can cause", what, err)
@@ -238,49 +320,89 @@ func checkFee(a *allowed, t int, f *bt.Fee, err error, what string) error {
 	if f == nil {
 		return fmt.Errorf("%s returned nil fee and nil error", what)
 	}
-	if !a.fee[t][valOf(f)] {
-		return fmt.Errorf("%s returned %v (type %q): no write in the program stores that value there", what, valOf(f), f.FeeType)
+	return w.valueDirect(gs, q, t, valOf(f), string(f.FeeType), what)
+}
+
+func (w *world) valueDirect(gs *gstate, q, t int, v feeVal, label, what string) error {
+	l := loc{q, t}
+	if label != string(feeTypes[t]) {
+		return fmt.Errorf("%s returned a fee labelled %q", what, label)
 	}
-	if f.FeeType != feeTypes[t] {
-		return fmt.Errorf("%s returned a fee labelled %q", what, f.FeeType)
+	if v == defaultVal {
+		if gs != nil && gs.nonDefault[l] {
+			return fmt.Errorf("%s returned the default fee after a written value had been observed there", what)
+		}
+		return nil
+	}
+	id, vt, ok := decodeFee(v)
+	if !ok || vt != t || !w.m.storesAt(id, t, q) {
+		return fmt.Errorf("%s returned %v: no write in the program stores that value there", what, v)
+	}
+	if gs != nil {
+		if e := gs.observe(l, id); e != nil {
+			return fmt.Errorf("%s returned %v: %v", what, v, e)
+		}
 	}
 	return nil
 }
 
-// gstate is what one goroutine knows about its own earlier operations.
-type gstate struct{ wroteExp []bool }
+// readVia judges a fee read through miner mi (mapping may change: membership only).
+func (w *world) readVia(mi, t int, f *bt.Fee, err error, what string) error {
+	if err != nil {
+		if errors.Is(err, bt.ErrFeeTypeNotFound) {
+			for q := range w.m.mapsTo[mi] {
+				if w.m.absent[q][t] {
+					return nil
+				}
+			}
+		}
+		return fmt.Errorf("%s returned error %v, which no write in the program can cause", what, err)
+	}
+	if f == nil {
+		return fmt.Errorf("%s returned nil fee and nil error", what)
+	}
+	if f.FeeType != feeTypes[t] {
+		return fmt.Errorf("%s returned a fee labelled %q", what, f.FeeType)
+	}
+	v := valOf(f)
+	if v == defaultVal {
+		return nil
+	}
+	id, vt, ok := decodeFee(v)
+	if !ok || vt != t || !w.m.storesVia(id, t, mi) {
+		return fmt.Errorf("%s returned %v: no write in the program stores that value there", what, v)
+	}
+	return nil
+}
 
-func (w *world) exec(o Op, gs *gstate) error {
+func (w *world) exec(o Op, i int, gs *gstate) error {
+	id := wid(gs.g, i)
 	switch o.K {
 	case "fee":
 		f, err := w.q[o.Q].Fee(feeTypes[o.T])
-		return checkFee(w.m.quote[o.Q], o.T, f, err, fmt.Sprintf("quote%d.Fee(%s)", o.Q, feeTypes[o.T]))
+		return w.readDirect(gs, o.Q, o.T, f, err, fmt.Sprintf("quote%d.Fee(%s)", o.Q, feeTypes[o.T]))
 	case "add":
-		if r := w.q[o.Q].AddQuote(feeTypes[o.T], w.fees[o.V][o.T]); r != w.q[o.Q] {
+		if r := w.q[o.Q].AddQuote(feeTypes[o.T], feeObj(id, o.T)); r != w.q[o.Q] {
 			return fmt.Errorf("AddQuote did not return its receiver")
 		}
+		return gs.observe(loc{o.Q, o.T}, id)
 	case "exp":
-		e := w.q[o.Q].Expiry()
-		// once this goroutine has itself updated the expiry, the initial value can no longer be what it reads
-		if !gs.wroteExp[o.Q] && e.Equal(w.initExp[o.Q]) {
-			return nil
-		}
-		for v := range w.m.times[o.Q] {
-			if e.Equal(poolTime(v)) {
-				return nil
-			}
-		}
-		return fmt.Errorf("quote%d.Expiry() = %v: neither the initial expiry nor a time some UpdateExpiry stores", o.Q, e)
+		return w.readExpiry(gs, o.Q, w.q[o.Q].Expiry(), fmt.Sprintf("quote%d.Expiry()", o.Q))
 	case "upd":
-		w.q[o.Q].UpdateExpiry(poolTime(o.V))
-		gs.wroteExp[o.Q] = true
+		w.q[o.Q].UpdateExpiry(timeOf(id, o.V%2 == 1))
+		gs.seenExp[o.Q][gs.g] = i
+		gs.nonInitExp[o.Q] = true
 	case "expd":
 		got := w.q[o.Q].Expired()
-		// pool times are far past (even index => expired) or far future (odd => not
-		// expired); the initial expiry (creation instant) allows either answer
-		can := !gs.wroteExp[o.Q]
-		for v := range w.m.times[o.Q] {
-			can = can || (v%2 == 0) == got
+		// stored times are far past (expired) or far future (not expired); the
+		// initial expiry (creation instant) allows either answer
+		can := !gs.nonInitExp[o.Q]
+		for _, g := range w.p.G {
+			for _, x := range g {
+				if x.K == "upd" && x.Q == o.Q && (x.V%2 == 0) == got {
+					can = true
+				}
+			}
 		}
 		if !can {
 			return fmt.Errorf("quote%d.Expired() = %v contradicts every expiry a write in the program stores", o.Q, got)
@@ -290,18 +412,29 @@ func (w *world) exec(o Op, gs *gstate) error {
 		if err != nil {
 			return fmt.Errorf("json.Marshal(quote%d): %v", o.Q, err)
 		}
-		return w.checkMarshalled(o.Q, b)
+		return w.checkMarshalled(gs, o.Q, b)
 	case "unm":
-		err := json.Unmarshal([]byte(docs[o.V].text), w.q[o.Q])
-		if docs[o.V].valid && err != nil {
-			return fmt.Errorf("json.Unmarshal(valid document %d, quote%d): %v", o.V, o.Q, err)
+		err := json.Unmarshal([]byte(docText(o.V, id)), w.q[o.Q])
+		if docValid(o.V) {
+			if err != nil {
+				return fmt.Errorf("json.Unmarshal(valid document, quote%d): %v", o.Q, err)
+			}
+			for t := 0; t < 2; t++ {
+				if docHas(o.V, t) {
+					if e := gs.observe(loc{o.Q, t}, id); e != nil {
+						return e
+					}
+				} else {
+					gs.nonDefault[loc{o.Q, t}] = true
+				}
+			}
 		}
 	case "qfee":
 		f, err := w.fqs.Fee(miner(o.M), feeTypes[o.T])
 		if errors.Is(err, bt.ErrMinerNoQuotes) && o.M != 0 {
 			return nil // the miner may not have been added yet
 		}
-		return checkFee(w.m.viaMiner(o.M), o.T, f, err, fmt.Sprintf("quotes.Fee(%s,%s)", miner(o.M), feeTypes[o.T]))
+		return w.readVia(o.M, o.T, f, err, fmt.Sprintf("quotes.Fee(%s,%s)", miner(o.M), feeTypes[o.T]))
 	case "quote":
 		fq, err := w.fqs.Quote(miner(o.M))
 		if err != nil {
@@ -313,20 +446,30 @@ func (w *world) exec(o Op, gs *gstate) error {
 		if fq == nil {
 			return fmt.Errorf("quotes.Quote(%s) returned nil, nil", miner(o.M))
 		}
-		isPool := -1
-		for i, q := range w.q {
+		for qi, q := range w.q {
 			if q == fq {
-				isPool = i
+				if !w.m.mapsTo[o.M][qi] {
+					return fmt.Errorf("quotes.Quote(%s) returned pool quote %d, which no AddMiner registers under that name", miner(o.M), qi)
+				}
+				f, err := fq.Fee(feeTypes[o.T])
+				return w.readDirect(gs, qi, o.T, f, err, fmt.Sprintf("quotes.Quote(%s)=quote%d .Fee(%s)", miner(o.M), qi, feeTypes[o.T]))
 			}
 		}
-		if isPool >= 0 && !w.m.mapsTo[o.M][isPool] {
-			return fmt.Errorf("quotes.Quote(%s) returned pool quote %d, which no AddMiner registers under that name", miner(o.M), isPool)
-		}
-		if isPool < 0 && !w.m.hasDflt[o.M] {
+		if !w.m.hasDflt[o.M] {
 			return fmt.Errorf("quotes.Quote(%s) returned a quote nobody stored", miner(o.M))
 		}
+		// a quote created by NewFeeQuotes/AddMinerWithDefault: defaults plus UpdateMinerFees values of this miner
 		f, err := fq.Fee(feeTypes[o.T])
-		return checkFee(w.m.viaMiner(o.M), o.T, f, err, fmt.Sprintf("quotes.Quote(%s).Fee(%s)", miner(o.M), feeTypes[o.T]))
+		if err != nil || f == nil {
+			return fmt.Errorf("quotes.Quote(%s).Fee(%s) on a default quote: %v", miner(o.M), feeTypes[o.T], err)
+		}
+		if v := valOf(f); v != defaultVal {
+			vid, vt, ok := decodeFee(v)
+			x, ok2 := w.m.op(vid)
+			if !ok || !ok2 || vt != o.T || x.K != "updm" || x.M != o.M || x.T != o.T {
+				return fmt.Errorf("quotes.Quote(%s).Fee(%s) on a default quote returned %v: no UpdateMinerFees of that miner stores it", miner(o.M), feeTypes[o.T], v)
+			}
+		}
 	case "addm":
 		if r := w.fqs.AddMiner(miner(o.M), w.q[o.Q]); r != w.fqs {
 			return fmt.Errorf("AddMiner did not return its receiver")
@@ -334,7 +477,7 @@ func (w *world) exec(o Op, gs *gstate) error {
 	case "addd":
 		w.fqs.AddMinerWithDefault(miner(o.M))
 	case "updm":
-		fq, err := w.fqs.UpdateMinerFees(miner(o.M), feeTypes[o.T], w.fees[o.V][o.T])
+		fq, err := w.fqs.UpdateMinerFees(miner(o.M), feeTypes[o.T], feeObj(id, o.T))
 		if err != nil {
 			if errors.Is(err, bt.ErrMinerNoQuotes) && o.M != 0 {
 				return nil
@@ -354,7 +497,30 @@ func (w *world) exec(o Op, gs *gstate) error {
 	return nil
 }
 
-func (w *world) checkMarshalled(q int, b []byte) error {
+func (w *world) readExpiry(gs *gstate, q int, e time.Time, what string) error {
+	if e.Equal(w.initExp[q]) {
+		if gs != nil && gs.nonInitExp[q] {
+			return fmt.Errorf("%s returned the initial expiry after an updated one had been observed", what)
+		}
+		return nil
+	}
+	id, future, ok := decodeTime(e)
+	o, ok2 := w.m.op(id)
+	if !ok || !ok2 || o.K != "upd" || o.Q != q || (o.V%2 == 1) != future {
+		return fmt.Errorf("%s = %v: neither the initial expiry nor a time some UpdateExpiry stores there", what, e)
+	}
+	if gs != nil {
+		g, i := id/maxOps, id%maxOps
+		if prev, seen := gs.seenExp[q][g]; seen && i < prev {
+			return fmt.Errorf("%s = %v: stale, goroutine %d's operation %d reappeared after its operation %d", what, e, g, i, prev)
+		}
+		gs.seenExp[q][g] = i
+		gs.nonInitExp[q] = true
+	}
+	return nil
+}
+
+func (w *world) checkMarshalled(gs *gstate, q int, b []byte) error {
 	var got map[string]struct {
 		MiningFee bt.FeeUnit `json:"miningFee"`
 		RelayFee  bt.FeeUnit `json:"relayFee"`
@@ -362,18 +528,21 @@ func (w *world) checkMarshalled(q int, b []byte) error {
 	if err := json.Unmarshal(b, &got); err != nil {
 		return fmt.Errorf("json.Marshal(quote%d) produced %q which does not parse: %v", q, b, err)
 	}
-	a := w.m.quote[q]
 	for t, ft := range feeTypes {
+		what := fmt.Sprintf("json.Marshal(quote%d) = %s: %q", q, b, ft)
 		e, ok := got[string(ft)]
 		if !ok {
-			if !a.absent[t] {
-				return fmt.Errorf("json.Marshal(quote%d) = %s lacks %q although no write removes it", q, b, ft)
+			if !w.m.absent[q][t] {
+				return fmt.Errorf("%s is missing although no write removes it", what)
+			}
+			if gs != nil {
+				gs.nonDefault[loc{q, t}] = true
 			}
 			continue
 		}
 		v := feeVal{e.MiningFee.Satoshis, e.MiningFee.Bytes, e.RelayFee.Satoshis, e.RelayFee.Bytes}
-		if !a.fee[t][v] {
-			return fmt.Errorf("json.Marshal(quote%d) = %s: %q value %v is stored by no write in the program", q, b, ft, v)
+		if err := w.valueDirect(gs, q, t, v, string(ft), what); err != nil {
+			return err
 		}
 	}
 	for k := range got {
@@ -384,51 +553,14 @@ func (w *world) checkMarshalled(q int, b []byte) error {
 	return nil
 }
 
-// lastWrites returns, for a single-object program, the set of values that can
-// be the final one for fee type t: the last write of each goroutine that writes
-// it, or the default when nobody does.
-func lastWrites(p Prog, t int) (vals map[feeVal]bool, absent bool) {
-	vals = map[feeVal]bool{}
-	any := false
-	for _, g := range p.G {
-		for i := len(g) - 1; i >= 0; i-- {
-			o := g[i]
-			if o.K == "add" && o.T == t {
-				vals[poolVal(o.V)] = true
-				any = true
-				break
-			}
-			if o.K == "unm" && docs[o.V].valid {
-				if docs[o.V].vals[t] < 0 {
-					absent = true
-				} else {
-					vals[poolVal(docs[o.V].vals[t])] = true
-				}
-				any = true
-				break
-			}
-		}
-	}
-	if !any {
-		vals[defaultVal] = true
-	}
-	return vals, absent
-}
-
 func (w *world) runOnce() error {
 	p := w.p
-	w.m = buildModel(p)
 	w.fqs = bt.NewFeeQuotes(miner(0))
 	w.q, w.initExp = nil, nil
 	for i := 0; i < p.NQuotes; i++ {
 		q := bt.NewFeeQuote()
 		w.q = append(w.q, q)
 		w.initExp = append(w.initExp, q.Expiry())
-	}
-	for v := 0; v < nFeeVals; v++ {
-		for t := 0; t < 2; t++ {
-			w.fees[v][t] = feeObj(v, t)
-		}
 	}
 	errs := make([]error, len(p.G))
 	start := make(chan struct{})
@@ -443,9 +575,9 @@ func (w *world) runOnce() error {
 				}
 			}()
 			<-start
-			gs := &gstate{wroteExp: make([]bool, p.NQuotes)}
+			gs := newGState(gi, p.NQuotes)
 			for oi, o := range p.G[gi] {
-				if err := w.exec(o, gs); err != nil {
+				if err := w.exec(o, oi, gs); err != nil {
 					errs[gi] = fmt.Errorf("goroutine %d op %d %+v: %v", gi, oi, o, err)
 					return
 				}
@@ -462,80 +594,97 @@ func (w *world) runOnce() error {
 			return e
 		}
 	}
-	// quiescent state: every fee is still a stored value; for the single-object
-	// kind it is the last write of some goroutine
+	return w.quiescent()
+}
+
+// quiescent checks the state after the join: every location holds a value some
+// write stored there, and it is the LAST write of its goroutine to that
+// location (an earlier one surviving means a later update was lost).
+func (w *world) quiescent() error {
 	for q := range w.q {
 		for t := range feeTypes {
+			what := fmt.Sprintf("after join: quote%d.Fee(%s)", q, feeTypes[t])
 			f, err := w.q[q].Fee(feeTypes[t])
-			if e := checkFee(w.m.quote[q], t, f, err, fmt.Sprintf("after join: quote%d.Fee(%s)", q, feeTypes[t])); e != nil {
+			if e := w.readDirect(nil, q, t, f, err, what); e != nil {
 				return e
 			}
-			if p.Kind == "quote" && !w.m.badDoc[q] {
-				vals, absent := lastWrites(p, t)
-				switch {
-				case err != nil && !absent:
-					return fmt.Errorf("after join: quote.Fee(%s) is missing, but no goroutine's last write removes it", feeTypes[t])
-				case err == nil && !vals[valOf(f)]:
-					return fmt.Errorf("after join: quote.Fee(%s) = %v is not the last write of any goroutine (lost update)", feeTypes[t], valOf(f))
-				}
+			if w.m.badDoc[q] {
+				continue
 			}
-		}
-		if p.Kind == "quote" {
-			last := map[int]bool{}
-			for _, g := range p.G {
-				for i := len(g) - 1; i >= 0; i-- {
-					if g[i].K == "upd" {
-						last[g[i].V] = true
-						break
+			anyDirect, removalLast := false, false
+			for g, ops := range w.p.G {
+				for i, o := range ops {
+					if !directWrite(o, q, t) {
+						continue
+					}
+					anyDirect = true
+					if o.K == "unm" && !docHas(o.V, t) && !w.m.laterDirectWrite(g, i, q, t) {
+						removalLast = true
 					}
 				}
 			}
-			e := w.q[q].Expiry()
-			ok := len(last) == 0 && e.Equal(w.initExp[q])
-			for v := range last {
-				ok = ok || e.Equal(poolTime(v))
-			}
-			if !ok {
-				return fmt.Errorf("after join: quote.Expiry() = %v is not the last UpdateExpiry of any goroutine", e)
-			}
-			if len(last) > 0 {
-				// all candidates are far past (even) or far future (odd): Expired() must agree with one of them
-				got := w.q[q].Expired()
-				can := false
-				for v := range last {
-					can = can || (v%2 == 0) == got
+			switch {
+			case err != nil:
+				if !removalLast {
+					return fmt.Errorf("%s is missing, but no goroutine's last write there removes it", what)
 				}
-				if !can {
-					return fmt.Errorf("after join: quote.Expired() = %v contradicts every possible final expiry", got)
+			case valOf(f) == defaultVal:
+				if anyDirect {
+					return fmt.Errorf("%s is still the default although the program writes there (lost update)", what)
+				}
+			default:
+				id, _, _ := decodeFee(valOf(f))
+				if w.m.laterDirectWrite(id/maxOps, id%maxOps, q, t) {
+					return fmt.Errorf("%s = %v is the value of goroutine %d's operation %d, but that goroutine wrote there again later (lost update)",
+						what, valOf(f), id/maxOps, id%maxOps)
 				}
 			}
+		}
+		e := w.q[q].Expiry()
+		what := fmt.Sprintf("after join: quote%d.Expiry()", q)
+		if err := w.readExpiry(nil, q, e, what); err != nil {
+			return err
+		}
+		anyUpd := false
+		for _, ops := range w.p.G {
+			for _, o := range ops {
+				anyUpd = anyUpd || (o.K == "upd" && o.Q == q)
+			}
+		}
+		if e.Equal(w.initExp[q]) {
+			if anyUpd {
+				return fmt.Errorf("%s is still the initial expiry although the program updates it (lost update)", what)
+			}
+			continue
+		}
+		id, future, _ := decodeTime(e)
+		g, i := id/maxOps, id%maxOps
+		for k := i + 1; k < len(w.p.G[g]); k++ {
+			if o := w.p.G[g][k]; o.K == "upd" && o.Q == q {
+				return fmt.Errorf("%s = %v is goroutine %d's operation %d, but it updated the expiry again later (lost update)", what, e, g, i)
+			}
+		}
+		if got := w.q[q].Expired(); got == future {
+			return fmt.Errorf("after join: quote%d.Expired() = %v but its expiry is %v", q, got, e)
 		}
 	}
 	return nil
 }
 
 func valid(p Prog) bool {
-	if p.Procs < 1 || p.Procs > 64 || p.NQuotes < 1 || p.NQuotes > 8 || p.Rounds < 1 || p.Rounds > 10 || len(p.G) == 0 {
+	if p.Procs < 1 || p.Procs > 64 || p.NQuotes < 1 || p.NQuotes > 8 || p.Rounds < 1 || p.Rounds > 10 || len(p.G) == 0 || len(p.G) > maxG {
 		return false
 	}
 	for _, g := range p.G {
+		if len(g) >= maxOps {
+			return false
+		}
 		for _, o := range g {
 			if o.Q < 0 || o.Q >= p.NQuotes || o.M < 0 || o.M >= nMiners || o.T < 0 || o.T > 1 || o.V < 0 {
 				return false
 			}
-			switch o.K {
-			case "add", "updm":
-				if o.V >= nFeeVals {
-					return false
-				}
-			case "upd":
-				if o.V >= nTimes {
-					return false
-				}
-			case "unm":
-				if o.V >= len(docs) {
-					return false
-				}
+			if o.K == "unm" && o.V >= nDocShapes {
+				return false
 			}
 			if p.Kind == "quote" && (o.Q != 0 || o.K == "qfee" || o.K == "quote" || o.K == "addm" || o.K == "addd" || o.K == "updm" || o.K == "qmar") {
 				return false
@@ -554,7 +703,7 @@ func checkProg(ctx *pbt.Ctx, p Prog) error {
 	}
 	prev := runtime.GOMAXPROCS(p.Procs)
 	defer runtime.GOMAXPROCS(prev)
-	w := &world{p: p}
+	w := &world{p: p, m: buildModel(p)}
 	for r := 0; r < p.Rounds; r++ {
 		if err := w.runOnce(); err != nil {
 			return fmt.Errorf("round %d: %v", r, err)
@@ -611,24 +760,20 @@ var quotesOps = []string{"qfee", "qfee", "quote", "quote", "addm", "addd", "updm
 func genOp(t *rapid.T, kinds []string, nq int) Op {
 	o := Op{K: rapid.SampledFrom(kinds).Draw(t, "k")}
 	switch o.K {
-	case "fee":
+	case "fee", "add":
 		o.Q, o.T = rapid.IntRange(0, nq-1).Draw(t, "q"), rapid.IntRange(0, 1).Draw(t, "t")
-	case "add":
-		o.Q, o.T, o.V = rapid.IntRange(0, nq-1).Draw(t, "q"), rapid.IntRange(0, 1).Draw(t, "t"), rapid.IntRange(0, nFeeVals-1).Draw(t, "v")
 	case "exp", "expd", "mar":
 		o.Q = rapid.IntRange(0, nq-1).Draw(t, "q")
 	case "upd":
-		o.Q, o.V = rapid.IntRange(0, nq-1).Draw(t, "q"), rapid.IntRange(0, nTimes-1).Draw(t, "v")
+		o.Q, o.V = rapid.IntRange(0, nq-1).Draw(t, "q"), rapid.IntRange(0, 1).Draw(t, "v")
 	case "unm":
-		o.Q, o.V = rapid.IntRange(0, nq-1).Draw(t, "q"), rapid.IntRange(0, len(docs)-1).Draw(t, "v")
-	case "qfee", "quote":
+		o.Q, o.V = rapid.IntRange(0, nq-1).Draw(t, "q"), rapid.SampledFrom([]int{docBoth, docBoth, docBoth, docBoth, docStdOnly, docDataOnly, docUnknownType, docMalformed}).Draw(t, "v")
+	case "qfee", "quote", "updm":
 		o.M, o.T = rapid.IntRange(0, nMiners-1).Draw(t, "m"), rapid.IntRange(0, 1).Draw(t, "t")
 	case "addm":
 		o.M, o.Q = rapid.IntRange(0, nMiners-1).Draw(t, "m"), rapid.IntRange(0, nq-1).Draw(t, "q")
 	case "addd":
 		o.M = rapid.IntRange(0, nMiners-1).Draw(t, "m")
-	case "updm":
-		o.M, o.T, o.V = rapid.IntRange(0, nMiners-1).Draw(t, "m"), rapid.IntRange(0, 1).Draw(t, "t"), rapid.IntRange(0, nFeeVals-1).Draw(t, "v")
 	}
 	o.Y = rapid.IntRange(0, 7).Draw(t, "y") == 0
 	return o
@@ -663,7 +808,7 @@ func genProg(t *rapid.T) Prog {
 
 func TestFeeQuotePrograms(t *testing.T) {
 	pbt.Run(t, pbt.Sub[Prog]{
-		Name: "feequote-programs", Quick: 2400, Thorough: 60000,
+		Name: "feequote-programs", Quick: 2400, Thorough: 36000,
 		Gen: genProg, Check: checkProg, Precommit: true,
 	})
 }
